@@ -5,7 +5,7 @@ From Coq Require Import ZArith Bool List.
 Import ListNotations.
 From Verif Require Import Model.Val Gen.Src_Task Gen.Src_TaskGraph Model.TaskGraph
   Proofs.TaskGraphP Proofs.TaskGraphP1 Proofs.TaskGraphP2 Proofs.TaskGraphP3 Proofs.TaskGraphP5
-  Proofs.TaskGraphP6 Proofs.TaskGraphP7 Proofs.TaskGraphP8.
+  Proofs.TaskGraphP4 Proofs.TaskGraphP6 Proofs.TaskGraphP7 Proofs.TaskGraphP8 Proofs.TaskGraphP9.
 Open Scope Z_scope.
 
 (* no starvation: a RELEASED task whose release time has arrived (within the lookahead) is offered *)
@@ -145,6 +145,35 @@ Example C18_no_plan_ahead_example :
   frontier_sane c18_sane 5 = true /\
   tg_schedulable c18_sane (mkSO 5 0 false false None ALL false) [] = Ok ([2], []).
 Proof. split; vm_compute; reflexivity. Qed.
+
+(* ---- the monitors applied to the implementation's results decide these statements, and accept what the
+   model produces (so they raise no alarm as long as the code agrees with the model) ---- *)
+Theorem C18_monitor_frontier : forall g o fr, c18_frontier_check (g, o, fr) = true <-> frontier_obs g o fr.
+Proof. exact c18_frontier_check_iff. Qed.
+Print Assumptions C18_monitor_frontier.
+Theorem C18_monitor_frontier_accepts_model : forall g o draws fr d',
+  tg_schedulable g o draws = Ok (fr, d') -> so_placed o = None -> c18_frontier_check (g, o, fr) = true.
+Proof. exact c18_frontier_check_accepts_model. Qed.
+Print Assumptions C18_monitor_frontier_accepts_model.
+Theorem C18_monitor_mono : forall a b, c18_mono_check (a, b) = true <-> incl a b.
+Proof. exact c18_mono_check_iff. Qed.
+Print Assumptions C18_monitor_mono.
+Theorem C18_monitor_no_plan_ahead : forall g o fr,
+  c18_no_plan_ahead_check (g, o, fr) = true <-> no_plan_ahead_obs g o fr.
+Proof. exact c18_no_plan_ahead_check_iff. Qed.
+Print Assumptions C18_monitor_no_plan_ahead.
+Theorem C18_monitor_no_plan_ahead_accepts_model : forall g o draws fr d',
+  tg_schedulable g o draws = Ok (fr, d') -> so_placed o = None -> c18_no_plan_ahead_check (g, o, fr) = true.
+Proof. exact c18_no_plan_ahead_check_accepts_model. Qed.
+Print Assumptions C18_monitor_no_plan_ahead_accepts_model.
+Theorem C18_monitor_children : forall g t rel, c18_children_check (g, t, rel) = true <-> children_obs g t rel.
+Proof. exact c18_children_check_iff. Qed.
+Print Assumptions C18_monitor_children.
+Theorem C18_monitor_children_accepts_model : forall g t fin draw g' rel canc,
+  notify_completion g t fin draw = (g', Ok (rel, canc)) -> tg_conditional g t = false ->
+  c18_children_check (g, t, rel) = true.
+Proof. exact c18_children_check_accepts_model. Qed.
+Print Assumptions C18_monitor_children_accepts_model.
 
 (* ---- non-vacuity: A (RELEASED, release 3) -> B (VIRTUAL), time 5: A is offered, B is not ---- *)
 Definition c18_g : tgraph :=
